@@ -35,6 +35,13 @@ type n =
 | N0
 | Npos of positive
 
+module Nat :
+ sig
+  val leb : nat -> nat -> bool
+
+  val ltb : nat -> nat -> bool
+ end
+
 module Pos :
  sig
   type mask =
@@ -55,6 +62,8 @@ module Coq_Pos :
 
   val pred : positive -> positive
 
+  val pred_N : positive -> n
+
   type mask = Pos.mask =
   | IsNul
   | IsPos of positive
@@ -74,6 +83,8 @@ module Coq_Pos :
 
   val iter : ('a1 -> 'a1) -> 'a1 -> positive -> 'a1
 
+  val pow : positive -> positive -> positive
+
   val compare_cont : comparison -> positive -> positive -> comparison
 
   val compare : positive -> positive -> comparison
@@ -86,7 +97,11 @@ module Coq_Pos :
 
   val coq_lor : positive -> positive -> positive
 
+  val coq_land : positive -> positive -> n
+
   val coq_lxor : positive -> positive -> n
+
+  val shiftl : positive -> n -> positive
 
   val iter_op : ('a1 -> 'a1 -> 'a1) -> positive -> 'a1 -> 'a1
 
@@ -102,6 +117,8 @@ module N :
   val double : n -> n
 
   val succ : n -> n
+
+  val pred : n -> n
 
   val add : n -> n -> n
 
@@ -125,6 +142,8 @@ module N :
 
   val odd : n -> bool
 
+  val pow : n -> n -> n
+
   val pos_div_eucl : positive -> n -> n * n
 
   val div_eucl : n -> n -> n * n
@@ -135,14 +154,22 @@ module N :
 
   val coq_lor : n -> n -> n
 
+  val coq_land : n -> n -> n
+
   val coq_lxor : n -> n -> n
+
+  val shiftl : n -> n -> n
 
   val shiftr : n -> n -> n
 
   val to_nat : n -> nat
 
   val eq_dec : n -> n -> bool
+
+  val ones : n -> n
  end
+
+val nth : nat -> 'a1 list -> 'a1 -> 'a1
 
 val removelast : 'a1 list -> 'a1 list
 
@@ -159,6 +186,8 @@ val fold_left : ('a1 -> 'a2 -> 'a1) -> 'a2 list -> 'a1 -> 'a1
 val fold_right : ('a2 -> 'a1 -> 'a1) -> 'a1 -> 'a2 list -> 'a1
 
 val existsb : ('a1 -> bool) -> 'a1 list -> bool
+
+val forallb : ('a1 -> bool) -> 'a1 list -> bool
 
 val filter : ('a1 -> bool) -> 'a1 list -> 'a1 list
 
@@ -301,6 +330,84 @@ val repointed : slot -> n -> n -> slot
 val fl_repoint : flat -> n -> n -> n -> n -> n -> flat option
 
 val flat_ops : flat idx_ops
+
+val lupd : nat -> 'a1 -> 'a1 list -> 'a1 list
+
+val bucket_index : n -> n -> n -> n
+
+val advance : n -> n -> n * n
+
+val cap : nat
+
+type bucket = slot list
+
+type chain = bucket list
+
+val hit : n -> (slot -> bool) -> slot -> bool
+
+val rp_hit : n -> n -> n -> slot -> bool
+
+val rp_new : n -> n -> slot -> slot
+
+val chain_find : (slot -> bool) -> chain -> slot option
+
+val bucket_subst :
+  (slot -> bool) -> (slot -> slot list) -> bucket -> (bucket * slot) option
+
+val chain_subst :
+  (slot -> bool) -> (slot -> slot list) -> chain -> (chain * slot) option
+
+val insert_free : slot -> chain -> chain
+
+val chain_put : (slot -> bool) -> slot -> chain -> chain * slot option
+
+val sw_insert : slot -> chain -> chain
+
+val split_step : n -> n -> n -> (chain * chain) -> slot -> chain * chain
+
+type pindex = { px_level : n; px_split : n; px_nkeys : n;
+                px_chains : chain list }
+
+val px_level : pindex -> n
+
+val px_split : pindex -> n
+
+val px_nkeys : pindex -> n
+
+val px_chains : pindex -> chain list
+
+val px_empty : pindex
+
+val px_bidx : pindex -> n -> n
+
+val px_chain : pindex -> n -> chain
+
+val px_set : pindex -> n -> chain -> n -> pindex
+
+val px_count : pindex -> n
+
+val px_nbuckets : pindex -> n
+
+val px_bucket : pindex -> n -> slot list
+
+val px_get : pindex -> n -> (slot -> bool) -> slot option
+
+val px_dosplit : pindex -> pindex
+
+val px_put_core : pindex -> slot -> (slot -> bool) -> pindex * slot option
+
+val px_put_with :
+  (pindex -> slot -> (slot -> bool) -> pindex * slot option) -> (n -> n ->
+  bool) -> pindex -> slot -> (slot -> bool) -> pindex * slot option
+
+val px_put :
+  (n -> n -> bool) -> pindex -> slot -> (slot -> bool) -> pindex * slot option
+
+val px_del : pindex -> n -> (slot -> bool) -> pindex * slot option
+
+val px_repoint : pindex -> n -> n -> n -> n -> n -> pindex option
+
+val chain_ops : pindex idx_ops
 
 type smap = (key * val0) list
 
@@ -607,3 +714,41 @@ val copy_seg : 'a1 disk -> ((n * n) * n option) -> dseg option
 val backup_disk : dseg list -> 'a1 disk
 
 val db_backup : 'a1 st -> 'a1 disk option
+
+val insert_dseg_seq : dseg -> dseg list -> dseg list
+
+val dby_seq : dseg list -> dseg list
+
+type entry = (n * n) * rec0
+
+val dseg_entries : dseg -> entry list
+
+val olog : flat disk -> entry list
+
+val apply_rec : smap -> entry -> smap
+
+val abs : flat disk -> smap
+
+val upd_ptr : (key -> (n * n) option) -> entry -> key -> (n * n) option
+
+val ptr_of : flat disk -> key -> (n * n) option
+
+val slot_key : flat disk -> slot -> key
+
+val forallb2 : ('a1 -> 'a1 -> bool) -> 'a1 list -> bool
+
+val nodupb : ('a1 -> 'a1 -> bool) -> 'a1 list -> bool
+
+val rec_fits_b : rec0 -> bool
+
+val tail_stuck_b : bytes -> bool
+
+val dseg_ok_b : dseg -> bool
+
+val disk_ok_b : flat disk -> bool
+
+val slot_ok_b : params -> flat disk -> n -> slot -> bool
+
+val ptr_eqb : (n * n) option -> (n * n) option -> bool
+
+val inv_b : params -> flat st -> bool
